@@ -43,14 +43,18 @@ def argmax(
     elif isinstance(axis, int):
         axis = (axis,)
 
-    # Make sure that a is evaluated only once
+    # Make sure that a and where are evaluated only once
     # ----------------------------------------------------------------------------------
-    # Note: If a is the result of a computation inside the same jitted function, XLA may
-    # fuse that computation separately into the maximum and into the comparison with the
-    # maximum below. The two evaluations can differ in the last bit, in which case no
-    # element compares equal to the maximum and index 0 would be returned.
+    # Note: If a (or where) is the result of a computation inside the same jitted
+    # function, XLA may fuse that computation separately into the maximum and into the
+    # comparison with the maximum below. The two evaluations can differ in the last bit,
+    # in which case no (unmasked) element compares equal to the maximum and index 0 would
+    # be returned.
     # ==================================================================================
-    a = optimization_barrier(a)
+    if where is None:
+        a = optimization_barrier(a)
+    else:
+        a, where = optimization_barrier((a, where))
 
     # Move axis over which to compute the argmax to the back and flatten last dims
     # ==================================================================================
